@@ -37,6 +37,10 @@ TRUSTED = [
     "correspondence streams",
     "harness/streams/poll.py: in-memory environment `MemBackend` (implements only the abstract methods of TrialBackend, "
     "following LocalBackend: output appended across runs, stop/pause markers, exit code) and the scripted scheduler",
+    "harness/streams/poll.py `RealLocal`: the same histories also run over the REAL LocalBackend (its files, marker files, log "
+    "opened by _schedule, status and log read by _all_trial_results, report.retrieve) with one real worker process per run, "
+    "commanded by the harness to write report lines / other output / exit, also in the middle of a poll between the two reads "
+    "the backend makes; those cases carry model lines for the same Poll model",
     "harness/streams/sim.py (see C10)",
     "Python's stable `sorted` modelled as insertion sort after equal keys; worker time stamps are a global emission counter",
 ]
@@ -51,7 +55,8 @@ RULE = ("poll stream: real TrialBackend.fetch_status_results / pause_trial / res
         "real Tuner._process_new_results over an in-memory environment: histories of start / emit (0-4 reports) / exit "
         "(before or after the last read) / loop (poll + scripted decisions, 0-3 reports written between the poll and the "
         "command) / resume / direct fetch, pause, stop / busy / checkpoint ops / stop_all, both delete_checkpoints values, "
-        "immediate and delayed stop; sim stream: see C10, with decisions after delivered results and immediate resumes; "
+        "immediate and delayed stop; the same generator over the real LocalBackend with real worker processes (ctor.local; plus "
+        "worker exit in the middle of a poll); sim stream: see C10, with decisions after delivered results and immediate resumes; "
         "distinct by sha256 of the spec; non-trivial iff >= 1 pause-resume or >= 1 hidden / skipped result")
 
 # the history of Lean's `staleHistory` (theorem `poll_resume_fresh_counterexample`), replayed on the real code
@@ -115,6 +120,18 @@ def gen_cases(rng, tier):
                   "p_resume_now": rng.choice([0.0, 0.3, 0.6]), "odd_fetch": rng.choice([0.0, 0.1]), "bad": 0.0},
         }
     yield from gen_loop_cases(rng, tier)
+    # the poll stream over the REAL LocalBackend (files, marker files, real worker processes); appended last so that the
+    # cases above stay the same for a given seed
+    for _ in range(24 if tier == "quick" else 300):
+        yield {
+            "ctor": {"delete_checkpoints": rng.random() < 0.3, "delayed_stop": False, "local": True},
+            "seed": rng.randrange(10 ** 9),
+            "steps": rng.choice([30, 50, 80]) if tier == "quick" else rng.choice([40, 80, 150]),
+            "n_workers": rng.randint(1, 4),
+            "p": {"p_continue": rng.choice([0.5, 0.6, 0.75]), "p_pause": rng.choice([0.15, 0.28, 0.35]),
+                  "p_window": rng.choice([0.0, 0.3, 0.6]), "direct_cmd": rng.choice([0.0, 0.15]),
+                  "bad": rng.choice([0.0, 0.05]), "stop_all": 0.5, "p_mid": rng.choice([0.0, 0.35, 0.6])},
+        }
 
 
 def gen_loop_cases(rng, tier):
